@@ -80,6 +80,14 @@ def evaluate(f, arg, width, max_steps=5000):
                 old = env[t["n"]]
                 env[t["n"]] = _wrap(old + (1 if op == "++" else -1), env, t["n"])
                 return old if e.get("postfix") else env[t["n"]]
+            if op == "~":
+                lit = e["e"]
+                while lit is not None and lit.get("k") == "paren":
+                    lit = lit.get("e")
+                if lit is not None and lit.get("k") == "int" and (lit.get("ty") or "").startswith("unsigned"):
+                    # ~0U is a value of the literal's own (fixed) type, not of the word type
+                    bits = 32 if lit.get("ty") in ("unsigned int", "unsigned") else 64
+                    return ~int(lit["v"]) & ((1 << bits) - 1)
             v = ev(e["e"], env)
             if op == "!":
                 return 0 if v else 1
@@ -110,6 +118,16 @@ def evaluate(f, arg, width, max_steps=5000):
             return _arith(op, a, b)
         if k == "cond":
             return ev(e["t"] if ev(e["c"], env) else e["f"], env)
+        if k == "paren":
+            return ev(e.get("e"), env)
+        if k == "call" and not e.get("a") and (e.get("f") or {}).get("k") == "ref":
+            fq = (e["f"].get("qual") or "") + (e["f"].get("q") or "")
+            for tp in tps:
+                if "numeric_limits<%s>" % tp in fq.replace(" ", ""):
+                    if e["f"]["n"] == "max":
+                        return mask
+                    if e["f"]["n"] in ("min", "lowest"):
+                        return 0
         raise NM(astx.show(e, 30))
 
     widths = {}
@@ -179,6 +197,16 @@ def evaluate(f, arg, width, max_steps=5000):
     except _Ret as r:
         return r.v
     raise NM("no return")
+
+
+def eval_expr(e, width, tparam="Int", env=None):
+    """value of a closed expression over an unsigned type parameter `tparam` of `width` bits (NM when not understood)"""
+    f = {"tparams": [{"k": "type", "n": tparam}], "params": [{"n": "__unused", "ty": tparam}], "body": {"k": "return", "e": e}}
+    if env:
+        # extra names are bound through leading declarations
+        f["body"] = {"k": "seq", "s": [{"k": "decl", "vars": [{"n": n, "ty": tparam, "init": {"k": "int", "v": v}} for n, v in env.items()]},
+                                       {"k": "return", "e": e}]}
+    return evaluate(f, 0, width)
 
 
 SPEC = {"popcount": lambda v, w: bin(v & ((1 << w) - 1)).count("1")}
